@@ -63,6 +63,7 @@ type rec struct {
 }
 
 type world struct {
+	subCancel map[int]context.CancelFunc
 	shapeB    int // 0 plain struct, 1 pointer event with pointer-receiver TypeNamer, 2 value TypeNamer
 	kind      string
 	under     *stores.Opened
@@ -170,7 +171,11 @@ func (w *world) subscribe(s int) error {
 	w.inSub = s
 	defer func() { w.inSub = -1 }()
 	id := fmt.Sprintf("sub-%d", s)
-	ctx := context.Background()
+	ctx, cancel := context.WithCancel(context.Background())
+	if w.subCancel == nil {
+		w.subCancel = map[int]context.CancelFunc{}
+	}
+	w.subCancel[s] = cancel
 	var err error
 	switch subType[s] {
 	case 0:
@@ -257,6 +262,12 @@ func execute(kind, scratch string, steps []step, f faultSpec) (*result, error) {
 				if err := w.subscribe(st.S); err == nil {
 					w.subbed[st.S] = true
 				}
+			}
+		case "cancel":
+			// the context this subscription was made with ends (its owner went away): the other ids —
+			// also the one sharing its event type — are not affected
+			if c := w.subCancel[st.S]; c != nil && w.subbed[st.S] {
+				c()
 			}
 		case "restart":
 			w.log = append(w.log, rec{K: "restart", Epoch: w.epoch})
@@ -411,8 +422,10 @@ func genHistory(r *rand.Rand) []step {
 		switch {
 		case x < 55:
 			st = append(st, step{K: "pub", T: []int{0, 0, 1, 1, 2}[r.IntN(5)]})
-		case x < 88:
+		case x < 86:
 			st = append(st, step{K: "sub", S: r.IntN(3)})
+		case x < 89:
+			st = append(st, step{K: "cancel", S: r.IntN(3)})
 		default:
 			st = append(st, step{K: "restart"})
 		}
@@ -428,6 +441,8 @@ func shape(steps []step) string {
 			b.WriteString(fmt.Sprintf("p%d", s.T))
 		case "sub":
 			b.WriteString(fmt.Sprintf("s%d", s.S))
+		case "cancel":
+			b.WriteString(fmt.Sprintf("c%d", s.S))
 		default:
 			b.WriteString("R")
 		}
